@@ -248,7 +248,11 @@ func genConc(r *vh.Rand, tier string) []string {
 					for _, def := range []string{"-", "V"} {
 						for _, own := range []string{"0", "1"} {
 							G := r.PickInt([]int{2, 4, 8, 8, 16})
-							K := r.Range(40, 120)
+							// G*K stays below ~500 (the specification's pairwise checks run on unary numbers)
+							K := r.Range(20, 60)
+							if G == 16 {
+								K = r.Range(12, 30)
+							}
 							out = append(out, fmt.Sprintf("conc %s %s %s %s %d %d %s", via, mode, cfg, def, G, K, own))
 						}
 					}
